@@ -35,7 +35,7 @@ import itertools
 import re
 import unicodedata
 import zlib
-from urllib.parse import quote as _ref_quote, unquote as _ref_unquote
+from urllib.parse import unquote as _ref_unquote
 
 from hypothesis import strategies as st
 
@@ -144,6 +144,9 @@ def _mechanism(a, b) -> str:
     ra, rb = a[0] + SEP + a[1], b[0] + SEP + b[1]
     if ra == rb:
         return "separator-shift"           # the raw concatenations already coincide: the split point is ambiguous
+    if ra.encode("ascii", "replace") == rb.encode("ascii", "replace") or \
+            ra.encode("ascii", "ignore") == rb.encode("ascii", "ignore"):
+        return "non-ascii-lost"
     if ra.casefold() == rb.casefold():
         return "case-folded"
     if "".join(ra.split()) == "".join(rb.split()):
@@ -152,9 +155,6 @@ def _mechanism(a, b) -> str:
         return "percent-not-escaped"
     if unicodedata.normalize("NFKC", ra) == unicodedata.normalize("NFKC", rb):
         return "unicode-normalised"
-    if ra.encode("ascii", "replace") == rb.encode("ascii", "replace") or \
-            ra.encode("ascii", "ignore") == rb.encode("ascii", "ignore"):
-        return "non-ascii-lost"
     if sorted(a) == sorted(b):
         return "components-swapped"
     return "other"
